@@ -58,7 +58,7 @@ func ParseRecRoute(s string) (*RecRoute, error) {
 		return nil, errors.New("invalid rec-route syntax")
 	}
 	s = s[1:]
-	for _, t := range strings.Split(s, ";") {
+	for _, t := range splitUnquoted(s, ';') {
 		param, err := ParseGenericParam(t)
 		if err != nil {
 			return nil, err
